@@ -194,7 +194,7 @@ func init() {
 func genMessage(r *rng) string {
 	pool := []string{"fix: colon msg", "title\nthis is bad", "tab\there", "  leading and trailing  ", "plain", "three word line\nand another three words",
 		"ünïcödé mëssage", "a: b: c", "multi\n\nparagraph\nmessage", "x", "Merge: a\tb: c", "trailing newline\n", "colon at end:", ": starts with colon",
-		"0000000000000000000000000000000000000000 looks like a hash", "commit: nested kind"}
+		"0000000000000000000000000000000000000000 looks like a hash", "commit: nested kind", "100% done", "%s %d %v: %q", "50%!"}
 	if r.chance(1, 6) {
 		return strings.Repeat("long line ", 300) + fmt.Sprint(r.intn(100))
 	}
@@ -232,6 +232,19 @@ func init() {
 		// name, every leaf it reports — name and id — must stand in the file as `name NUL id` (a reader that pads a
 		// cut-off id with zeros, or invents a name, serves data that is not there)
 		Oracle: func(c Case, step int, line string, impl string) *Finding {
+			// the index reader: the entries it reports must stand in the file (a path completed with bytes that are not
+			// there, an entry beyond the end of the file, is data that was never written)
+			if strings.HasPrefix(line, "idx.dec ") && strings.HasPrefix(impl, "ok ") {
+				f := strings.Fields(impl)
+				file := unhx(strings.TrimPrefix(line, "idx.dec "))
+				if len(f) == 4 && len(file) >= 12 {
+					enc := encodeIndex(entriesIn(f[3]))
+					if len(enc) > len(file) || !bytes.Equal(enc[12:], file[12:len(enc)]) {
+						return &Finding{Kind: "spec-violation", Clause: "no-wrong-object", Detail: "the index reader reports entries whose bytes are not in the file (" + clip(f[3], 120) + ")"}
+					}
+				}
+				return nil
+			}
 			if !strings.HasPrefix(line, "tree.walk ") || !strings.HasPrefix(impl, "ok ") || step == 0 || !strings.HasPrefix(c.Lines[step-1], "st.put ") {
 				return nil
 			}
